@@ -98,8 +98,9 @@ theorem sameCore_dropFromHeap (s : State) (g : Nat) : SameCore s (s.dropFromHeap
     trigger is raised only at or above the threshold -/
 def evOK : Ev → Bool
   | .decide _ _ now deadline _ _ _ _ _ => decide (deadline ≤ now)
-  | .tried _ _ ok ll ss sk st su pf _ _ _ _ => !ok || (!ll && !ss && !sk && !st && !su && !pf)
+  | .tried _ _ ok ll ss sk st su pf rn _ _ _ => !ok || (!ll && !ss && !sk && !st && !su && !pf && rn)
   | .crossed _ _ p b m => decide (b + m ≤ p)
+  | .postStop _ wasRunning => wasRunning
   | _ => true
 
 /-- the actor of a successful `tryPassivation` event -/
@@ -205,6 +206,15 @@ theorem logExt_regFinish (s : State) (a g : Nat) (st : Strat) : LogExt s (s.regF
 theorem logExt_register (s : State) (a : Nat) (st : Strat) : LogExt s (s.register a st) :=
   (logExt_regTarget s a).trans (logExt_regFinish _ _ _ _)
 
+theorem sameActors_dropFromHeap (s : State) (g : Nat) : (s.dropFromHeap g).actors = s.actors :=
+  (sameCore_dropFromHeap s g).actors
+
+theorem sameActors_unregister (s : State) (a : Nat) : (s.unregister a).actors = s.actors := by
+  unfold unregister
+  split
+  · rfl
+  · exact sameActors_dropFromHeap _ _
+
 theorem logExt_unregister (s : State) (a : Nat) : LogExt s (s.unregister a) := by
   unfold unregister
   split
@@ -264,8 +274,8 @@ theorem logExt_mproc (s : State) (a : Nat) : LogExt s (s.mproc a) := by
         · exact he
         · exact (he.trans (logExt_setE _ _ _)).trans (logExt_signal _ _)
 
-theorem logExt_doStopS (s : State) (a : Nat) : LogExt s (s.doStopS a) :=
-  (logExt_emit _ _ rfl).trans (logExt_setA _ _ _)
+theorem logExt_doStopS (s : State) (a : Nat) (h : (s.actors a).running = true) : LogExt s (s.doStopS a) :=
+  (logExt_emit _ _ (by simpa [evOK] using h) rfl).trans (logExt_setA _ _ _)
 
 theorem evOK_tried_false (s : State) (a : Nat) (src : Src) : evOK (s.triedEv a src false) = true := rfl
 
@@ -281,23 +291,29 @@ theorem logExt_tryS (s : State) (a : Nat) (src : Src) : LogExt s (s.tryS a src) 
     · exact (logExt_setA _ _ _).trans (logExt_emit _ _ rfl rfl)
     · exact logExt_emit _ _ rfl rfl
   · rename_i h
+    simp only [tryBlocked, Bool.or_eq_true, not_or, Bool.not_eq_true, Bool.not_eq_false'] at h
+    have hrun : (s.actors a).running = true := by simpa using h.2
     refine (logExt_unregister s a).trans ?_
+    have hru : ((s.unregister a).actors a).running = true := by
+      rw [(sameActors_unregister s a)]; exact hrun
     -- the stop and the attempt's event are logged together
     refine ⟨[s.triedEv a src (s.tryB a), .postStop a ((s.unregister a).actors a).running], rfl, ?_, ?_⟩
     · intro e he
       simp only [List.mem_cons, List.not_mem_nil, or_false] at he
       rcases he with rfl | rfl
-      · simp only [tryBlocked, Bool.or_eq_true, not_or, Bool.not_eq_true] at h
-        simp only [triedEv, evOK, h]
+      · simp only [triedEv, evOK, h]
         simp
-      · rfl
+      · simpa [evOK] using hru
     · exact adjOK_pair _ _ _ _ _ _ _ _ _ _ _ _ _ _
 
 theorem logExt_shutdown (s : State) (a : Nat) : LogExt s (s.shutdown a) := by
   unfold shutdown
   split
   · exact LogExt.refl s
-  · exact ((logExt_setA _ _ _).trans (logExt_unregister _ _)).trans (logExt_doStopS _ _)
+  · rename_i hr
+    refine ((logExt_setA _ _ _).trans (logExt_unregister _ _)).trans (logExt_doStopS _ _ ?_)
+    rw [sameActors_unregister]
+    simpa [setA, upd] using hr
 
 theorem logExt_markActivity (s : State) (a : Nat) : LogExt s (s.markActivity a) := by
   unfold markActivity
@@ -400,8 +416,10 @@ theorem logExt_trigger (f : Nat) (s : State) (g : Nat) (pre post : List SOp) : L
     exact ((logExt_popHead s g hd).trans (logExt_passivateS _ _ _ _ _)).trans (logExt_delEntry _ _)
   | case7 s g pre post h _ hq hh hd f a t ht hb hp =>
     exact (logExt_popHead s g hd).trans (logExt_passivateS _ _ _ _ _)
-  | case8 s g pre post h _ hq hh hd f a t ht hb hp ih =>
+  | case8 s g pre post h _ hq hh hd f a t ht hb hp hi ih =>
     exact ((((logExt_popHead s g hd).trans (logExt_passivateS _ _ _ _ _)).trans (logExt_refresh _ _)).trans (logExt_hpush _ _)).trans ih
+  | case9 s g pre post h _ hq hh hd f a t ht hb hp hi ih =>
+    exact ((logExt_popHead s g hd).trans (logExt_passivateS _ _ _ _ _)).trans ih
 
 theorem logExt_processMessageEntry (s : State) (g : Nat) (pre post : List SOp) :
     LogExt s (processMessageEntry s g pre post) := by
